@@ -14,9 +14,13 @@ CONN_STATE = "network::connection::Connection.state"
 
 
 def blocked_test_regions(ctx, b):
-    """blocks executed only when a Connection's state was found to be Blocked"""
+    """blocks executed only when a Connection's state was found to be Blocked: behind the Blocked
+    edge of a switch on the state's discriminant, or -- path-sensitively -- behind a bool that
+    such a switch decided (`if conn.is_blocked() { .. }`, `if !blocked { return }`, matches!)"""
+    import boolpath
     dv = ctx.prog.variant_discr("network::connection::ConnectionState", "Blocked")
     reg = set()
+    ev_edges = {}
     for i, bb in enumerate(b.bbs):
         t = bb["t"]
         if t["k"] != "switch":
@@ -30,6 +34,16 @@ def blocked_test_regions(ctx, b):
                     ts = dict(t["ts"])
                     if dv in ts:
                         reg |= cfg.edge_dom_set(b, i, ts[dv])
+                        ev_edges[i] = ts[dv]
+    if ev_edges:
+        class _S(boolpath.Spec):
+            def edges(self, b_, bbi, t):
+                return (ev_edges[bbi],) if bbi in ev_edges else ()
+        try:
+            ex = boolpath.explore(b, _S(), cap=150000)
+            reg |= set(range(len(b.bbs))) - set(ex.reached)
+        except boolpath.TooManyStates:
+            pass
     return reg
 
 
@@ -257,7 +271,8 @@ def expired_fn(ctx):
     if b is not None:
         return b
     c = [fb for fn, fb in sorted(ctx.prog.bodies.items()) if fn.startswith(BR) and fb.kind != "Closure"
-         and any("std::time::Instant" in fb.locals[k] for k in range(1, fb.nargs + 1)) and "Vec<u64>" in fb.locals[0]]
+         and any("std::time::Instant" in fb.locals[k] for k in range(1, fb.nargs + 1))
+         and ("Vec<u64>" in fb.locals[0] or any("Vec<u64>" in fb.locals[k] for k in range(1, fb.nargs + 1)))]
     if len(c) == 1:
         return c[0]
     return ctx.prog.need(BR + "get_expired_clients")
@@ -376,7 +391,14 @@ def _bool_comparison(b, bbi, l, depth=0):
 
 def rule_regpair(ctx, R):
     n = 0
+    adt = ctx.prog.adts.get("network::blocking::BlockingRegistry")
+    fields = [f[0] for f in (adt["variants"][0]["f"] if adt and adt.get("variants") else [])]
+    has_keyset = "blocked_keys" in fields or not fields
+    if not has_keyset:
+        R.note("BlockingRegistry has no separate key set any more (fields: %s): the two-index pairing obligation is void" % fields)
     for fn, b in sorted(ctx.prog.bodies.items()):
+        if not has_keyset:
+            break
         if not fn.startswith(BR) or b.kind == "Closure":
             continue
         def ops(field, rx):
@@ -399,7 +421,8 @@ def rule_regpair(ctx, R):
             R.finding(fn, "index-pair:add", "blocked_on_key and blocked_keys are not extended together", b.loc())
         if bool(q_del) != bool(k_del):
             R.finding(fn, "index-pair:remove", "blocked_on_key and blocked_keys are not shrunk together", b.loc())
-    R.floor("registry_methods", n)
+    if has_keyset:
+        R.floor("registry_methods", n)
     for h in ("handle_blpop", "handle_brpop"):
         b = ctx.prog.need(SERVER + h)
         reg = [i for i, t in b.calls() if callee(t) in registration_fns(ctx)]
